@@ -163,3 +163,9 @@ package load
 //@   ghost at returned#0: nop = true
 //@   ensures implies(!nop, result.(*adaptiveShedder).windowScale * real(options.window / time.Duration(options.buckets)) * 1000.0 == 1000000000.0)
 //@   allocates
+
+// the default overload check: the CPU is overloaded when its usage is AT or above the threshold
+//@ func systemOverloadChecker
+//@   property C02
+//@   ghost at after CpuUsage#0: cu = ret
+//@   ensures_local result == (cu >= cpuThreshold)
